@@ -33,7 +33,9 @@ ASSUMPTIONS = [
 BUDGET = {"quick": (6, 250), "thorough": (16, 3000)}
 
 LAMS = {
-    "Select": ["lambda e: e.jets()", "lambda e: e.met() + 1", "lambda e: {'a': e.met(), 'b': e.jets()}", "lambda e: e.jets().Select(lambda j: j.pt())", "lambda e: e"],
+    "Select": ["lambda e: e.jets()", "lambda e: e.met() + 1", "lambda e: {'a': e.met(), 'b': e.jets()}", "lambda e: e.jets().Select(lambda j: j.pt())", "lambda e: e",
+               # node lists with entries that are not nodes (the None key of a ** spread, the None default of a keyword-only parameter)
+               "lambda e: {**e.info(), 'pt': e.met()}", "lambda e: ({'n': 1, **e.info(), 'k': e.met()}, (lambda q, *, w=None, z=1: q)(e.met()))"],
     "Where": ["lambda e: e.met() > 1", "lambda e: e.jets().Count() > 0"],
     "SelectMany": ["lambda e: e.jets()", "lambda e: e.jets().Where(lambda j: j.pt() > 1)"],
 }
